@@ -17,7 +17,7 @@ ASSUMPTIONS = [
 ]
 
 SCORERS = [None, {"cls": "L2Cost"}, {"cls": "LocalAnomalyScore", "cost": {"cls": "L2Cost"}}, {"cls": "GaussianVarCost"},
-           {"cls": "L1Cost"}, "function", "table", {"cls": "GaussianCovCost"}]
+           {"cls": "L1Cost"}, "function", "table", {"cls": "GaussianCovCost"}, {"cls": "SecondMomentLocalScore"}]
 
 
 def oracle_spec(spec):
